@@ -1045,6 +1045,21 @@ pub fn request(db: &Db, op: &Op) -> Out {
     }
 }
 
+/// Number of `ev_lru` results that currently hold a value (each weighs 1 through `heap_size`).
+pub fn lru_cached_count(db: &Db) -> usize {
+    let info = (db as &dyn salsa::Database).memory_usage();
+    info.queries.iter().filter(|(k, _)| k.ends_with("ev_lru")).map(|(_, v)| v.heap_size_of_fields().unwrap_or(0)).sum()
+}
+
+/// Ids of all currently enumerated tracked structs (TS, TSC).
+pub fn ts_entry_ids(db: &Db) -> (Vec<u64>, Vec<u64>) {
+    use salsa::plumbing::ZalsaDatabase;
+    let z = db.zalsa();
+    let a = TS::ingredient(db).entries(z).map(|e| e.key().key_index().as_bits()).collect();
+    let b = TSC::ingredient(db).entries(z).map(|e| e.key().key_index().as_bits()).collect();
+    (a, b)
+}
+
 pub struct Sess {
     pub db: Db,
     pub prog: Arc<Program>,
